@@ -2,9 +2,11 @@
 
 TB_VERUS = [
     'Verus 0.2026.09.13 + Z3 (SMT encoding, rustc front end)',
-    'vp/extract.py lexical normalisations N1-N4 and the desugarings N5 (ref patterns `Some(&p)` -> bind + deref) and N6 '
-    '(`impl Iterator` return type of an assumed accessor -> CopyIter) preserve meaning (counts reported per run); ghost text '
-    '(loop invariants, proof blocks) is spliced into bodies in place and is erased at compile time',
+    'vp/extract.py lexical normalisations N1-N4 and the desugarings N5-N13 (ref patterns -> bind + deref; `impl Iterator` return '
+    'type of an assumed accessor -> CopyIter; `break v` in a tail loop -> return; `.map(Ctor)?`; assert_eq -> assert; bool `|=`/`&=` '
+    '-> if; Option/Result::map and and_then closures inlined; `.iter()/.values()[.copied()].any/all(..)` -> the short-circuit loop; '
+    '`Pin::new(&mut s).poll_next(cx)` -> `s.poll_next_unpin(cx)`) preserve meaning (DESIGN.md 3.1; counts reported per run); ghost '
+    'text (loop invariants, proof blocks) is spliced into bodies in place and is erased at compile time',
 ]
 TB_REGISTRY = [
     'contracts of Object / Service / ConnectionState / SerialMap / State methods are imported verbatim from the leaf units '
@@ -178,19 +180,33 @@ PROPS = {
                     'one ServiceDestroyed per connected subscriber; nothing belonging to another object or connection changes',
     ),
     'C14': dict(
-        level='other',
+        level='proof',
+        verus_units=['core_packetizer'],
         kani=[dict(package='aldrin-core', injections=[KANI_CORE_PKT], jobs=5)],
-        trusted_base=TB_KANI + ['bytes crate verified as compiled (no stubs in these harnesses)'],
-        assumptions=['all obligations are BOUNDED: a two-frame stream of 5+6 bytes with symbolic contents, every split point '
-                     'through extend_from_slice, one split point through spare_capacity_mut/bytes_written; one 6-byte frame fed '
-                     'byte by byte; a short length prefix'],
+        trusted_base=TB_VERUS + TB_KANI + [
+            'Verus unit core_packetizer: bytes::BytesMut is MODELLED as a sequence of bytes (new, len, extend_from_slice, split_to, '
+            'truncate, [..n], Buf::get_u32_le for &[u8], <[T] as AsRef<[T]>>::as_ref; contracts ASSUMED from the bytes documentation, '
+            'with the panics of split_to / slicing / get_u32_le as preconditions)',
+            'Kani harnesses: bytes crate verified as compiled (no stubs in these harnesses)',
+        ],
+        assumptions=[
+            'DEDUCTIVE (Verus, all stream lengths, all chunkings): Packetizer::{new, extend_from_slice, next_message} on their '
+            'verbatim text against the framing written from the statement (first_frame / frames): next_message hands out exactly '
+            'the first complete frame of the buffered bytes and keeps exactly what follows it, or nothing when no frame is '
+            'complete; lemma_first_frame_append (a complete frame is not changed by later bytes) and lemma_frames_append (draining '
+            'after s, then after t, yields the frames of s + t and the same remainder) give independence of the chunking',
+            'BOUNDED (Kani, real BytesMut): a two-frame stream of 5+6 bytes with symbolic contents, every split point '
+            'through extend_from_slice, one split point through spare_capacity_mut/bytes_written; one 6-byte frame fed '
+            'byte by byte; a short length prefix',
+        ],
         undecided_clauses=[
-            'arbitrary message sequences and sizes (beyond the 64 KiB reserve step), more than two pieces',
+            'the zero-copy interface spare_capacity_mut / bytes_written (unsafe, MaybeUninit) beyond the one bounded harness; that '
+            'the real BytesMut behaves like the sequence model (the bounded Kani harnesses exercise it on small streams)',
             'the stream transports TokioTransport / Buffered (Pin-projected poll functions over async I/O objects)',
         ],
-        explanation='bounded contract harnesses on the real Packetizer: frames out = frames in, in order, each only once '
-                    'it is complete, nothing lost or duplicated, for every split point of a two-frame stream through both '
-                    'input interfaces. Level `other`: every deciding obligation is bounded, nothing is counted as proved.',
+        explanation='framing proved for all streams and all ways of cutting them into chunks, on the verbatim Packetizer functions '
+                    'against a byte-sequence model of BytesMut (Verus); the same behaviour checked on the real BytesMut for a '
+                    'bounded family of streams and split points through both input interfaces (Kani, bounded, not counted as proved).',
     ),
     'C08': dict(
         level='proof',
